@@ -91,6 +91,8 @@ def se3_sampler_with(k):
 # ----------------------------------------------------------------------------------------------- traces
 def build(ctx):
     g = Gen('C20')
+    _tr = g.trace
+    g.trace = lambda *a, **k: _tr(*a, **{**k, 'optional': True})   # see run(): a missing trace breaks its theorem, the search still runs
     for k, C in CLS.items():
         g.trace(f'tr_add_{k}', [('a', 'V6'), ('b', 'V6')], (lambda C: lambda a, b: (C(a) + C(b)).A)(C))
         g.trace(f'tr_sub_{k}', [('a', 'V6'), ('b', 'V6')], (lambda C: lambda a, b: (C(a) - C(b)).A)(C))
@@ -133,7 +135,7 @@ def build(ctx):
     g.trace('tr_I_vel', [('J', 'M66'), ('a', 'V6')], lambda J, a: (mk_inertia(J) * SpatialVelocity(a)).A)
     # the constructor traces only when no rotational inertia is given (I = zeros); used as a bridge to the hand model
     g.trace('tr_inertia_noI', [('m', 'S'), ('r', 'V3')], lambda m, r: SpatialInertia(m, r).A,
-            sampler=lambda rng: inertia_sampler(rng)[:2], optional=True,
+            sampler=lambda rng: inertia_sampler(rng)[:2],
             note='SpatialInertia(m, r) with I omitted (np.zeros); the full constructor forces float64 and is hand-modelled')
     # hand model of the full constructor: numeric correspondence (T-num)
     g.model('m_spatial_inertia', [('m', 'S'), ('r', 'V3'), ('I', 'M33')], 'M66',
